@@ -40,7 +40,7 @@ def build(prop):
     return out
 
 def queries(): return build('C01')
-JOBS = {'quick': 8, 'thorough': 6}
+JOBS = {'quick': 2, 'thorough': 2}   # measured: 15-24 GB per query while bounds are tuned
 ASSUMPTIONS = ['model = sorted array where a new equivalent key goes after the existing ones (std::multiset/multimap order); for multimap only the per-key multiset of values is compared',
                'keys are 8-bit from a universe of 32, comparators std::less / std::greater']
 OUTSIDE = ['more symbolic operations than stated per query, node capacities above 8, allocator variations, key types with non-trivial copy', 'a 4-level tree is only reached by scripts, never by the symbolic suffix']
